@@ -2,7 +2,7 @@
   Rtp/Props/C03.lean — C03: decoding conforms to RFC 3550/8285, re-encoding is stable, the
   standalone views agree.  Property theorems only; helper lemmas live in Rtp/Proofs/Wire*.lean.
 -/
-import Rtp.Proofs.WireAccept
+import Rtp.Proofs.WireCanonical
 import Rtp.Pred.C03
 namespace Rtp.Props.C03
 open Rtp Rtp.Model Rtp.Spec.Wire Rtp.Proofs.Wire
@@ -50,6 +50,114 @@ def exWire : Wire :=
     pad := some [0xFF, 0xFF] }
 
 example : exWire.WF = true ∧ exWire.reserved = false := by decide
+
+/-! ### sentence (2): re-encoding any accepted input is stable -/
+
+/-- For ANY byte string that Unmarshal accepts (into any receiver, no bound on the length):
+    Marshal reports invalid padding exactly when P = 1 with count 0, and otherwise yields bytes
+    that decode (into any receiver) to an equal packet.  Holds inside the reserved-id region too. -/
+theorem c03_remarshal (r : Packet) (buf : Bytes) (p : Packet) (h : pktUnmarshal r buf = .ok p) :
+    (p.header.padding = true ∧ p.paddingSize = 0 ∧ pktMarshal p = .err .invalidPadding) ∨
+    (¬ (p.header.padding = true ∧ p.paddingSize = 0) ∧
+      ∃ bs, pktMarshal p = .ok bs ∧ ∀ r', ∃ p', pktUnmarshal r' bs = .ok p' ∧ canonP p' = canonP p) := by
+  by_cases hp : (p.header.padding && p.paddingSize == 0) = true
+  · left
+    have hp' := hp
+    simp only [Bool.and_eq_true, beq_iff_eq] at hp'
+    exact ⟨hp'.1, hp'.2, by simp [pktMarshal, pktMarshalTo, hp]⟩
+  · right
+    simp only [Bool.not_eq_true] at hp
+    have henc := pktUnmarshal_out r buf p h hp
+    refine ⟨by simpa using hp, (ofPacket p).encode, pktMarshal_ofPacket p henc, ?_⟩
+    intro r'
+    obtain ⟨bs, p', h1, h2, h3⟩ := marshal_unmarshal p henc r'
+    rw [pktMarshal_ofPacket p henc] at h1
+    cases h1
+    exact ⟨p', h2, h3⟩
+
+/-- the same as the predicate the driver evaluates on the real code (`c03.mut`, and the second
+    conjunct of `c03.wire`): every byte string -/
+theorem c03_remarshal_pred (buf : Bytes) : Pred.C03.mutOK (Pred.C03.modelObs buf) = true := by
+  simp only [Pred.C03.mutOK, Pred.C03.remarshalOK, Pred.C03.modelObs]
+  cases hu : pktUnmarshal {} buf with
+  | err e => simp [Res.map, Res.coarse]
+  | panic => simp [Res.map, Res.coarse]
+  | ok p =>
+    simp only [Res.map, Res.coarse]
+    have hc : ((canonP p).header.padding && (canonP p).paddingSize == 0) = (p.header.padding && p.paddingSize == 0) := by
+      cases hx : p.header.extension <;> simp [canonP, canonH, hx]
+    rcases c03_remarshal {} buf p hu with ⟨h1, h2, h3⟩ | ⟨h1, bs, h2, h3⟩
+    · simp [hc, h1, h2, h3]
+    · have hp : (p.header.padding && p.paddingSize == 0) = false := by
+        rw [Bool.eq_false_iff]; intro hh; simp only [Bool.and_eq_true, beq_iff_eq] at hh; exact h1 hh
+      obtain ⟨p', h4, h5⟩ := h3 {}
+      simp [hc, hp, h2, h4, h5]
+
+/-- non-vacuity of `c03_remarshal`: an input the decoder accepts although no conforming encoder
+    writes it — a one-byte "element" with id 0 and two bytes, an interior pad, non-zero filler -/
+def exOdd : Wire :=
+  { version := 2, pt := 96, ext := some (.oneByte [.elem 0 [7, 8], .pad, .elem 5 [9, 9]]), pad := some [0xAA, 0xBB] }
+example : exOdd.WF = false ∧ (pktUnmarshal {} exOdd.encode).isOk = true :=
+  ⟨by decide, by rw [pktUnmarshal_encode exOdd {} (by decide) (by decide)]; rfl⟩
+
+/-- canonical layout: Marshal of the described packet is the image, byte for byte -/
+theorem c03_canonical (w : Wire) (h : w.canonical = true) : pktMarshal w.toPacket = .ok w.encode := by
+  have hwf : w.WF = true := by simp only [Wire.canonical, Bool.and_eq_true] at h; exact h.1.1
+  have hres : w.reserved = false := by
+    simp only [Wire.canonical, Bool.and_eq_true] at h
+    cases hx : w.ext with
+    | none => simp [Wire.reserved, hx]
+    | some b =>
+      have hc := h.1.2
+      simp only [hx] at hc
+      cases b with
+      | oneByte items => simp only [ExtBlock.canonical, Bool.and_eq_true, Bool.not_eq_true'] at hc; simp [Wire.reserved, hx, ExtBlock.reserved, hc.2]
+      | twoByte items => simp [Wire.reserved, hx, ExtBlock.reserved]
+      | legacy p ws => simp [Wire.reserved, hx, ExtBlock.reserved]
+  have hun := pktUnmarshal_encode w {} (wireOk_of_WF w hwf) (wireUnread_of_not_reserved w hres)
+  have hpkt : ({ header := hdrOf ({} : Packet).header w, payload := w.payload, paddingSize := w.toPacket.paddingSize } : Packet) = w.toPacket := by
+    have : ({} : Packet).header = ({} : Header) := rfl
+    rw [this, hdrOf_empty]; rfl
+  rw [hpkt] at hun
+  have hpad : (w.toPacket.header.padding && w.toPacket.paddingSize == 0) = false := by
+    cases hp : w.pad with
+    | none => simp [Wire.toPacket, hp]
+    | some f =>
+      simp only [Wire.WF, Bool.and_eq_true, hp, decide_eq_true_eq] at hwf
+      have : (f.length + 1).toUInt8 ≠ 0 := by
+        intro h0
+        have := congrArg UInt8.toNat h0
+        simp [Nat.toUInt8] at this; omega
+      simp only [Wire.toPacket, hp, Option.isSome_some, Bool.true_and, beq_eq_false_iff_ne, ne_eq]
+      exact this
+  have henc := pktUnmarshal_out {} w.encode w.toPacket hun hpad
+  rw [pktMarshal_ofPacket _ henc, ofPacket_toPacket w h]
+
+/-- the whole predicate of `c03.wire` on the model's observation, outside the known-finding region -/
+theorem c03_wire_pred (w : Wire) (hw : w.WF = true) (hr : w.reserved = false) :
+    Pred.C03.wire w w.encode (Pred.C03.modelObs w.encode) = true := by
+  have h1 := c03_accepts_pred w hw hr
+  have h2 := c03_remarshal_pred w.encode
+  simp only [Pred.C03.mutOK] at h2
+  simp only [Pred.C03.wire, h1, h2, hw, Bool.not_true, Bool.false_or, Bool.true_and, Bool.or_eq_true,
+    Bool.not_eq_true', Pred.C03.canonOK, beq_iff_eq]
+  by_cases hc : w.canonical = true
+  · right
+    have hun := pktUnmarshal_encode w {} (wireOk_of_WF w hw) (wireUnread_of_not_reserved w hr)
+    have hpkt : ({ header := hdrOf ({} : Packet).header w, payload := w.payload, paddingSize := w.toPacket.paddingSize } : Packet) = w.toPacket := by
+      have : ({} : Packet).header = ({} : Header) := rfl
+      rw [this, hdrOf_empty]; rfl
+    rw [hpkt] at hun
+    simp only [Pred.C03.modelObs, hun, c03_canonical w hc]
+  · left; simpa using hc
+
+example : exWire.canonical = false := by decide
+
+/-- non-vacuity of `c03_canonical`: 2 CSRCs, three two-byte elements (one of length 0), padding -/
+def exCanon : Wire :=
+  { version := 2, marker := true, pt := 111, csrc := [1, 2],
+    ext := some (.twoByte [.elem 1 [], .elem 200 [1, 2, 3], .elem 7 [9]]), payload := [5, 6], pad := some [0, 0, 0] }
+example : exCanon.canonical = true := by decide
 
 /-! ### the known finding `c03_reserved_id` (DESIGN §7 row 2) -/
 
